@@ -167,3 +167,9 @@ package ice
 //@   site call Wait#1 ghost waited := true
 //@   ensures closed-afterwards: closed(h.done)
 //@   ensures a-graceful-close-always-waits-for-the-handlers-even-if-already-closed: graceful ==> waited
+
+// Application handlers are reached only through the notifier queues: nothing calls them directly.
+//@ enumerate C11 calls ice.(*Agent).onCandidate in nowhere
+//@ enumerate C11 calls ice.(*Agent).onConnectionStateChange in nowhere
+//@ enumerate C11 calls ice.(*Agent).onSelectedCandidatePairChange in nowhere
+//@ enumerate C11 calls ice.(*handlerNotifier).EnqueueCandidate in (*Agent).addCandidate, (*Agent).addRemotePassiveTCPCandidate, (*Agent).setGatheringState
